@@ -114,6 +114,20 @@ func (p *Program) encodeUnit(c *Contract) *UnitResult {
 	for _, r := range c.Requires {
 		e.assume("true", env0.evalBool(r.Expr))
 	}
+	for _, r := range c.Assumes {
+		e.assume("true", env0.evalBool(r.Expr))
+		e.note("assumed about the inputs of %s [%s]: %s", shortKey(c.Key()), r.Label, r.Raw)
+	}
+	var caseConds []string
+	if c.CaseAll {
+		for _, cs := range c.Cases {
+			caseConds = append(caseConds, e.define("case", "Bool", env0.evalBool(cs.Expr)))
+		}
+	}
+	carveCond := ""
+	if c.Carve != nil {
+		carveCond = e.define("carve", "Bool", env0.evalBool(c.Carve.Expr))
+	}
 	// vacuity cover: the precondition (with type facts and global invariants) is satisfiable
 	cov := e.oblige("cover", c.Key()+"#cover[requires]", "requires", "true", "false", c.Pos)
 	cov.MustSat = true
@@ -173,6 +187,20 @@ func (p *Program) encodeUnit(c *Contract) *UnitResult {
 				e.oblige("post", fmt.Sprintf("%s#post[%s|other]", c.Key(), lab), lab, reach, fmt.Sprintf("(=> (not (or %s)) %s)", strings.Join(all, " "), goal), en.Line)
 				continue
 			}
+			if len(c.Cases) > 0 && !c.CaseAll {
+				var all []string
+				for ci, cs := range c.Cases {
+					cl := cs.Label
+					if cl == "" {
+						cl = fmt.Sprintf("c%d", ci+1)
+					}
+					cond := env0.evalBool(cs.Expr)
+					all = append(all, cond)
+					e.oblige("post", fmt.Sprintf("%s#post[%s|%s]", c.Key(), lab, cl), lab, reach, fmt.Sprintf("(=> %s %s)", cond, goal), en.Line)
+				}
+				e.oblige("post", fmt.Sprintf("%s#post[%s|other]", c.Key(), lab), lab, reach, fmt.Sprintf("(=> (not (or %s false)) %s)", strings.Join(all, " "), goal), en.Line)
+				continue
+			}
 			e.oblige("post", fmt.Sprintf("%s#post[%s]", c.Key(), lab), lab, reach, goal, en.Line)
 		}
 		// frame
@@ -196,6 +224,49 @@ func (p *Program) encodeUnit(c *Contract) *UnitResult {
 		}
 	} else if len(c.Ensures) > 0 {
 		res.Errors = append(res.Errors, "function has no return path")
+	}
+	if c.CaseAll && len(caseConds) > 0 {
+		var out []*Obl
+		for _, o := range e.obls {
+			if o.MustSat {
+				out = append(out, o)
+				continue
+			}
+			for ci, cond := range caseConds {
+				cl := c.Cases[ci].Label
+				if cl == "" {
+					cl = fmt.Sprintf("c%d", ci+1)
+				}
+				o2 := *o
+				o2.ID = o.ID + "|" + cl
+				o2.Goal = fmt.Sprintf("(=> %s %s)", cond, o.Goal)
+				out = append(out, &o2)
+			}
+			o2 := *o
+			o2.ID = o.ID + "|else"
+			o2.Goal = fmt.Sprintf("(=> (not (or %s false)) %s)", strings.Join(caseConds, " "), o.Goal)
+			out = append(out, &o2)
+		}
+		e.obls = out
+	}
+	if c.Carve != nil {
+		cond := carveCond
+		lab := c.Carve.Label
+		if lab == "" {
+			lab = "carved"
+		}
+		var extra []*Obl
+		for _, o := range e.obls {
+			if o.MustSat {
+				continue
+			}
+			o2 := *o
+			o2.ID = o.ID + "|" + lab
+			o2.Goal = fmt.Sprintf("(=> (not %s) %s)", cond, o.Goal)
+			o.Goal = fmt.Sprintf("(=> %s %s)", cond, o.Goal)
+			extra = append(extra, &o2)
+		}
+		e.obls = append(e.obls, extra...)
 	}
 	for _, o := range e.obls {
 		o.Show = shows
@@ -224,6 +295,10 @@ func (r *UnitResult) smtFile(o *Obl, withModel bool) string {
 	}
 	b.WriteString(r.Header)
 	for _, l := range r.Enc.script[:o.Prefix] {
+		if strings.Contains(l, "as const") && strings.Contains(l, "nilIface") && r.Enc.nilLit != "" {
+			// cvc5 accepts only literal values in constant arrays
+			l = strings.ReplaceAll(l, "nilIface", r.Enc.nilLit)
+		}
 		b.WriteString(l)
 		b.WriteString("\n")
 	}
